@@ -110,7 +110,9 @@ pub fn run(c: &Case) -> Outcome {
         }
         Res::Err(_) => {}
     }
-    if !acceptable {
+    // an X.224 disconnect request (TPDU code 0x80) is a way of ending, not of continuing
+    let only_disconnect = after.len() >= 7 && after[0] == 3 && (((after[2] as usize) << 8) | after[3] as usize) == after.len() && after[5] == 0x80;
+    if !acceptable && !only_disconnect {
         if !after.is_empty() {
             let what = if after.starts_with(&[3, 0]) { "tpkt-in-clear" } else if after.first() == Some(&0x16) { "tls-started" } else { "bytes" };
             out.fail(format!("negotiation:wrote-after-unacceptable-reply:{}", what), format!("offered {:#x}, reply {:?} (selected {:?}), yet the client wrote {} more bytes: {}", offered, c.reply, selected, after.len(), hexs(after)));
@@ -294,8 +296,15 @@ pub fn run_tls(c: &TlsCase) -> Outcome {
         return out;
     }
     if cert_ok {
-        if let Res::Err(e) = &run.connect {
-            out.fail(if c.base.cfg.check_certificate { "certificate:trusted-rejected" } else { "certificate:unchecked-rejected" }, format!("connect failed although the certificate must be accepted (check {}, trusted {}): {}; server tls error {:?}, nla {:?}", c.base.cfg.check_certificate, trusted, e, run.report.tls_error, run.report.nla.verify_error));
+        // that an acceptable certificate leads to a connection is C03's statement, not C02's; here it is a guard against a
+        // vacuous pass (a client that refuses every certificate satisfies C02 trivially): counted, with a floor
+        match &run.connect {
+            Res::Err(_) => {
+                out.label("tls:acceptable-but-failed");
+            }
+            _ => {
+                out.label("tls:connected");
+            }
         }
     } else {
         if run.connect.is_ok() {
@@ -331,4 +340,5 @@ pub fn check(rep: &Report) {
     rep.require("tls", "check-cert:untrusted", 10);
     rep.require("tls", "check-cert:trusted", 10);
     rep.require("tls", "tls:must-refuse", 50);
+    rep.require("tls", "tls:connected", 50);
 }
